@@ -57,6 +57,66 @@ def check(run, prog, tier):
     run.rule("C09-I", "the correlation function and the spectral density answer the same question in the same units: a public "
                       "method both define returns a converted energy in both or in neither", minimum=2)
     rule_I(run, prog)
+    run.rule("C09-J", "a component is added to what the function holds, and replaces it only when the function holds nothing: the "
+                      "test that sends an addition to the initialiser is true for the uninitialised function only", minimum=1)
+    rule_J(run, prog)
+
+
+def rule_J(run, prog):
+    """'The sum has data equal to the sum of the components' data ... for any number of components': the composite
+    constructors of correlation functions, spectral densities and the Fourier parts add every component through
+    DFunction._add_me, which initialises the function (DFunction._make_me, replacing the data) when it holds nothing yet and
+    accumulates otherwise.  The decision is taken on an attribute the constructor sets to None and the initialiser sets to
+    something else.  The test has to single out None: an attribute the initialiser may leave falsy (a boolean such as 'has
+    an imaginary part') sends every later component of a real-valued function to the initialiser again under a truth-value
+    test, and the sum holds its last component only."""
+    from .. import sentinel
+    rid = "C09-J"
+    cls = prog.cls("quantarhei.core.dfunction.DFunction")
+    init = cls.methods["_make_me"]
+    prog.consulted.add(init.relpath)
+    n = 0
+    for nme, f in cls.methods.items():
+        if nme in ("__init__", "_make_me"):
+            continue
+        pm = parents_map(f.node)
+        for c in walk_no_nested(f.node):
+            if not (isinstance(c, ast.Call) and norm(c.func) == "self._make_me"):
+                continue
+            g = pm.get(c)
+            while g is not None and not isinstance(g, ast.If):
+                g = pm.get(g)
+            if g is None:
+                continue        # unconditional re-initialisation (set_data and the like): not a decision
+            n += 1
+            in_body = any(c in list(ast.walk(st)) for st in g.body)
+            t_ = g.test
+            neg = False
+            while isinstance(t_, ast.UnaryOp) and isinstance(t_.op, ast.Not):
+                t_, neg = t_.operand, not neg
+            ok, why = False, "is not a test of an attribute of the function"
+            if isinstance(t_, ast.Compare) and len(t_.ops) == 1 and isinstance(t_.comparators[0], ast.Constant) \
+                    and t_.comparators[0].value is None and isinstance(t_.left, ast.Attribute) and norm(t_.left.value) == "self":
+                attr = t_.left.attr
+                isnone = isinstance(t_.ops[0], ast.Is) != neg
+                kinds_i, _ = sentinel.attr_values([init.node], attr)
+                kinds_c, _ = sentinel.attr_values([cls.methods["__init__"].node], attr)
+                ok = (isnone == in_body) and "none" in kinds_c and kinds_i and "none" not in kinds_i
+                why = "does not single out the uninitialised function (self.%s: constructor %s, initialiser %s)" % (
+                    attr, sorted(kinds_c), sorted(kinds_i))
+            elif isinstance(t_, ast.Attribute) and norm(t_.value) == "self":
+                attr = t_.attr
+                kinds_i, _ = sentinel.attr_values([init.node], attr)
+                # truth-value test: exact only if the initialiser always leaves a truthy constant
+                ok = (neg == in_body) and bool(kinds_i) and kinds_i <= {"truthy"}
+                why = ("tests self.%s for its truth value, but the initialiser may leave it falsy (%s): an initialised function "
+                       "with self.%s false is initialised again" % (attr, sorted(kinds_i), attr))
+            run.obligation(rid, f.short, ok, key="initialises-only-when-empty",
+                           message="%s decides between initialising and accumulating with `%s`, which %s - the data already added "
+                                   "are replaced by the component that comes next" % (f.short, norm(g.test), why),
+                           loc=f.loc(g), sample={"test": norm(g.test)})
+    if n < 1:
+        raise AnalysisError("C09-J: no guarded call of the initialiser found in DFunction")
 
 
 def rule_I(run, prog):
